@@ -196,9 +196,8 @@ Inductive cut : node -> node -> Prop :=
 | cut_frame b b' en c : cut_list b b' -> cut (Frame b en c) (Frame b' Fail c)
 | cut_inner b b' en c : cut_inner_list b b' -> cut (Frame b en c) (Frame b' en c)
 | cut_action b b' evs : cut_inner_list b b' -> cut (Action b evs) (Action b' evs)
-with cut_list : nodes -> nodes -> Prop :=          (* a prefix, its last started node possibly cut *)
+with cut_list : nodes -> nodes -> Prop :=          (* a prefix; every node that was started may be cut itself *)
 | cutl_stop l : cut_list l nnil
-| cutl_last t t' r : cut t t' -> cut_list (ncons t r) (ncons t' nnil)
 | cutl_cons t t' r r' : cut t t' -> cut_list r r' -> cut_list (ncons t r) (ncons t' r')
 with cut_inner_list : nodes -> nodes -> Prop :=    (* same length, nodes cut inside *)
 | cuti_nil : cut_inner_list nnil nnil
